@@ -67,16 +67,27 @@ class ModelFS:
 
 
 class _WFile:
+    """a Python buffered binary writer: write() only fills the user-space buffer; the data reaches the (volatile) file
+    at flush() or close().  Payloads in the harnesses are far below io.DEFAULT_BUFFER_SIZE (8 KiB), so nothing is written
+    through early - stated in the evidence as an assumption."""
     def __init__(self, fs, path):
         self.fs = fs; self.path = path
         self.fd = fs._nfd; fs._nfd += 1; fs.fds[self.fd] = path
+        self.buf = None
 
     def write(self, data):
         self.fs._pt("write", self.path)
+        self.buf = data if self.buf is None or len(self.buf) == 0 else self.buf + data
+        return len(data)
+
+    def flush(self):
+        if self.buf is None:
+            return
+        data, self.buf = self.buf, None
+        self.fs._pt("flush", self.path)
         cur = self.fs.files[self.path]
         self.fs.files[self.path] = data if len(cur) == 0 else cur + data
         self.fs.log.append(("write", self.path, data))
-        return len(data)
 
     def fileno(self):
         return self.fd
@@ -85,6 +96,7 @@ class _WFile:
         return self
 
     def __exit__(self, *a):
+        self.flush()
         self.fs._pt("close", self.path)
         self.fs.log.append(("close", self.path))
         return False
